@@ -209,9 +209,6 @@ func e2eRefusals(c *e2eCtx) error {
 			// the only change of one file is text after its final newline (a stray brace, no trailing
 			// newline) that makes it unparsable; precision 1 (blame sees the line; at precision 2/3 the
 			// unterminated last line is the recorded finding D-C04-2)
-			if s.cfg.Old == "INIT" {
-				return false
-			}
 			t := map[string]string{}
 			done := false
 			for _, k := range sortedKeys(s.newTree) {
@@ -231,6 +228,7 @@ func e2eRefusals(c *e2eCtx) error {
 			}
 			cfg := s.cfg
 			cfg.Precision = 1
+			cfg.Old = s.oldRev
 			s.cfg = cfg
 			return proj.WriteConfig(s.dir, cfg) == nil
 		}, false},
@@ -284,9 +282,6 @@ func e2eRefusals(c *e2eCtx) error {
 		{"nothing-to-instrument-comments-only", []string{"track"}, func(s *scenario, r *rand.Rand) bool {
 			// HEAD differs from the old revision only in comments and a type declaration; the printer
 			// settings differ from gofmt's, so re-printing a file would change its bytes
-			if s.cfg.Old == "INIT" {
-				return false
-			}
 			t := map[string]string{}
 			n := 0
 			for k, v := range s.newTree {
@@ -307,9 +302,6 @@ func e2eRefusals(c *e2eCtx) error {
 			return proj.WriteConfig(s.dir, cfg) == nil
 		}, true},
 		{"nothing-to-instrument", []string{"track"}, func(s *scenario, r *rand.Rand) bool {
-			if s.cfg.Old == "INIT" {
-				return false
-			}
 			writeCfg(s, func(c *proj.Config) { c.Old = "HEAD" })
 			return true
 		}, true},
